@@ -108,7 +108,11 @@ vsym (const char *name)
 {
   static const char *vers[] = { 0, "XCRYPT_4.4", "XCRYPT_4.3", "XCRYPT_2.0", "OW_CRYPT_1.0",
                                 "GLIBC_2.2.5", "GLIBC_2.0" };
-  void *p = dlsym (lib, name);
+  /* XCV_SYMVER: bind every symbol at this version node when it exists there (old-binary view) */
+  const char *want = getenv ("XCV_SYMVER");
+  void *p = want ? dlvsym (lib, name, want) : 0;
+  if (!p)
+    p = dlsym (lib, name);
   for (size_t i = 1; !p && i < sizeof vers / sizeof vers[0]; i++)
     p = dlvsym (lib, name, vers[i]);
   return p;
@@ -856,6 +860,9 @@ main (int argc, char **argv)
   libbase = lm ? lm->l_addr : 0;
   if (argc > 2)
     load_syms (argv[2]);
+  /* touch the library's thread-local storage now: glibc allocates a dlopen'ed module's TLS block
+     with malloc on first access, which must not be booked as an allocation of some API call */
+  (void) dlsym (lib, "_crypt_verif_sink");
   f_crypt_rn = (crypt_rn_t) vsym ("crypt_rn");
   f_crypt_ra = (crypt_ra_t) vsym ("crypt_ra");
   f_crypt_r = (crypt_r_t) vsym ("crypt_r");
